@@ -2434,6 +2434,19 @@ class SymX:
         return obj
 
     def _method(self, recv: Term, name: str, args: tuple, kwargs: tuple, st: State, call: ast.Call | None) -> Term:
+        for a in args:
+            # a library method that consumes `map(f, xs)` applies f to every element: f is executed once on a symbolic element
+            src_ = self._iter_source(a)
+            if self._is_map(src_) and src_ not in self.expanded and len(self.frames) <= self.max_depth:
+                lid_ = self.fresh()
+                self.loops.append(Loop(lid_, "comp", src_, None, self.fi, call if call is not None else self.fi.node))
+                try:
+                    saved_pc_ = st.pc
+                    self._element(src_, st, lid_)
+                    st.pc = saved_pc_
+                    st.alive = True
+                finally:
+                    self.loops.pop()
         if recv[0] == "phi":
             alts = [(g, a) for g, a in recv[1] if not is_const(a, None)]
             if len(alts) == 1:
